@@ -33,6 +33,18 @@
 (*   is the model finding the replay reproduces on the real code           *)
 (*   (proposed_fix_C18.diff makes the code agree with FALSE).              *)
 (*                                                                         *)
+(* The three caps are configured independently (SetMaxBodySize = wire cap, *)
+(* SetMaxRequestBytes = advertised cap, SetMaxDecompressedBodySize), so    *)
+(* their RELATIVE ORDER is a dimension of the configuration space of its   *)
+(* own: OrderConfigs places the advertised cap below / AT / above the wire *)
+(* cap and the explicit decoded cap below / AT / above each of them (gaps  *)
+(* from Gaps: a wide one and, in the thorough tier, one byte, where cap+1  *)
+(* of one cap is the other cap).  OrderCovered (an ASSUME) rejects any cfg *)
+(* whose configuration space lacks one of these orders.  When the          *)
+(* advertised cap is the binding raw cap (ReqCapGoverns: not larger than   *)
+(* the wire cap, EQUAL included) a body over it is answered 413 and        *)
+(* nothing else, and it bounds the decoded size to the byte.               *)
+(*                                                                         *)
 (* Not modelled / assumed: the clause "without decoding more than one byte *)
 (* past the cap" is not observable from outside and is not judged; the     *)
 (* property's carve-out (streaming zstd frames whose declared window       *)
@@ -46,6 +58,8 @@ CONSTANTS
     MaxBodyVals,   \* SetMaxBodySize values offered            (0 = unlimited)
     MaxReqVals,    \* SetMaxRequestBytes values offered        (0 = none, nothing advertised)
     MaxDecVals,    \* SetMaxDecompressedBodySize values offered (0 = derive 16x, < 0 = disabled)
+    OrderBases,    \* wire caps around which every relative order of the three caps is offered
+    Gaps,          \* distances used for "below" / "above" in those orders (0 is always included)
     Small,         \* a body size comfortably inside every positive cap
     Codings,       \* Content-Encoding classes: none identity zstd gzip unknown list
     ZstdFrames,    \* fcs nofcs multi multi_nofcs  (+ nofcs_bigwin corrupt: outside the property)
@@ -87,6 +101,51 @@ ASSUME /\ \A c \in MaxBodyVals \cup MaxReqVals : c = 0 \/ c >= MinWindow
        /\ \A c \in MaxDecVals : c <= 0 \/ c >= MinWindow
        /\ \A c \in DceLimits  : c <= 0 \/ c >= MinWindow
        /\ Small > 0 /\ DceBig > Small
+
+--------------------------------------------------------------------------
+(* The configuration space.  The product of the offered values, plus, for  *)
+(* every base b in OrderBases, the configurations in which the caps stand  *)
+(* in every relative order:                                                *)
+(*    wire cap        0 (unlimited) | b                                    *)
+(*    advertised cap  0 (none) | b - g | b | b + g                         *)
+(*    decoded cap     disabled | unset (derive 16x) | x - g | x | x + g    *)
+(*                    for x = the wire cap and x = the advertised cap      *)
+Around(x) == {x} \cup UNION {{x - g, x + g} : g \in Gaps}
+Usable(S) == {v \in S : v >= MinWindow}
+ReqAround(b) == {0} \cup Usable(Around(b))
+DecAround(mb, mr) ==
+    {-1, 0} \cup Usable((IF mb > 0 THEN Around(mb) ELSE {}) \cup
+                        (IF mr > 0 THEN Around(mr) ELSE {}))
+OrderConfigs ==
+    UNION { UNION { UNION { { [maxBody |-> mb, maxReq |-> mr, maxDec |-> md] :
+                                md \in DecAround(mb, mr) } :
+                            mr \in ReqAround(b) } :
+                    mb \in {0, b} } :
+            b \in OrderBases }
+Configs == [maxBody : MaxBodyVals, maxReq : MaxReqVals, maxDec : MaxDecVals] \cup OrderConfigs
+
+\* Relative order is a dimension the configuration space must contain in full:
+\* advertised cap below / equal to / above the wire cap, and, for each of those,
+\* the explicit decoded cap below / equal to / above the advertised cap and
+\* below / equal to / above the wire cap.
+Rels == {"lt", "eq", "gt"}
+Rel(a, b) == IF a < b THEN "lt" ELSE IF a = b THEN "eq" ELSE "gt"
+OrderCovered ==
+    \A r1 \in Rels : \A r2 \in Rels :
+        /\ \E c \in Configs : /\ c.maxBody > 0 /\ c.maxReq > 0 /\ c.maxDec > 0
+                              /\ Rel(c.maxReq, c.maxBody) = r1 /\ Rel(c.maxDec, c.maxReq) = r2
+        /\ \E c \in Configs : /\ c.maxBody > 0 /\ c.maxReq > 0 /\ c.maxDec > 0
+                              /\ Rel(c.maxReq, c.maxBody) = r1 /\ Rel(c.maxDec, c.maxBody) = r2
+        \* ... and with the decoded cap unset (derived) and disabled
+        /\ \E c \in Configs : /\ c.maxBody > 0 /\ c.maxReq > 0 /\ c.maxDec = 0
+                              /\ Rel(c.maxReq, c.maxBody) = r1
+        /\ \E c \in Configs : /\ c.maxBody > 0 /\ c.maxReq > 0 /\ c.maxDec < 0
+                              /\ Rel(c.maxReq, c.maxBody) = r1
+ASSUME "http" \in Parts => OrderCovered
+ASSUME \A c \in OrderConfigs :
+          /\ c.maxBody = 0 \/ c.maxBody >= MinWindow
+          /\ c.maxReq = 0 \/ c.maxReq >= MinWindow
+          /\ c.maxDec <= 0 \/ c.maxDec >= MinWindow
 
 NoCfg  == [maxBody |-> 0, maxReq |-> 0, maxDec |-> 0]
 NoReq  == [raw |-> 0, dec |-> 0, coding |-> "none", frame |-> "na", cl |-> "declared"]
@@ -170,8 +229,12 @@ OverAdvertised(c, q) ==
 \* advertised cap bounds the decoded size here, so both answers are allowed.
 MaybeOverAdvertised(c, q) ==
     Compressed(q) /\ c.maxReq > 0 /\ ~ReqCapGoverns(c) /\ q.dec > c.maxReq
+\* The wire cap is a ground of its own only while it is the tighter raw cap:
+\* where the advertised cap governs (it is not larger than the wire cap, EQUAL
+\* included) a body over the wire cap is over the advertised cap, the client
+\* was told that cap, and the answer is 413.
 OverOther(c, q) ==
-    \/ c.maxBody > 0 /\ q.raw > c.maxBody
+    \/ c.maxBody > 0 /\ q.raw > c.maxBody /\ ~ReqCapGoverns(c)
     \/ Compressed(q) /\ ConfiguredDecCap(c) > 0 /\ q.dec > ConfiguredDecCap(c)
 UnknownCoding(q) == q.coding = "unknown"
 
@@ -205,15 +268,20 @@ InScopeDce(d) == \A j \in 1..Len(d.stack) : IsCodingTok(d.stack[j])
 --------------------------------------------------------------------------
 (* HTTP pipeline                                                           *)
 
+\* Every response names the advertised cap, whatever the other caps are.
+Advertised(c) == IF c.maxReq > 0 THEN c.maxReq ELSE 0
+
 \* A terminal step: the response leaves the server.
 HttpDone(name, status, body, cls) ==
     /\ phase' = "done"
     /\ UNCHANGED <<cfg, req, lim, dcap, dce>>
     /\ Record([a |-> name, term |-> TRUE, cls |-> cls,
                args |-> [allowed |-> AllowedSeq(cfg, req)],
+               \* adv: the cap the response advertises (VGI-Max-Request-Bytes; 0 = none)
                exp |-> IF InScopeHttp(req)
-                       THEN [status |-> status, body |-> body, outcome |-> AllowedSeq(cfg, req)]
-                       ELSE [status |-> status, body |-> body]])
+                       THEN [status |-> status, body |-> body, adv |-> Advertised(cfg),
+                             outcome |-> AllowedSeq(cfg, req)]
+                       ELSE [status |-> status, body |-> body, adv |-> Advertised(cfg)]])
 
 HttpStep(name, next) ==
     /\ phase' = next
@@ -225,7 +293,7 @@ NewRequest ==
     /\ "http" \in Parts
     /\ Budget
     /\ phase \in (IF Mode = "tree" THEN {"idle", "done"} ELSE {"idle"})
-    /\ \E c \in [maxBody : MaxBodyVals, maxReq : MaxReqVals, maxDec : MaxDecVals] :
+    /\ \E c \in Configs :
          /\ (phase = "done" /\ cfg # NoCfg) => c = cfg     \* same server for a whole walk
          /\ \E cd \in Codings : \E fr \in Frames(cd) : \E r \in RawSizes(c) :
             \E d \in (IF cd \in {"zstd", "gzip"} THEN DecSizes(c) ELSE {r}) :
@@ -511,6 +579,9 @@ DecodedCapSound ==
         /\ (dcap.kind = "advertised") => dcap.cap = cfg.maxReq
         /\ (ConfiguredDecCap(cfg) > 0 /\ dcap.cap > 0) => dcap.cap <= ConfiguredDecCap(cfg)
         /\ (ConfiguredDecCap(cfg) > 0) => dcap.cap > 0
+        \* where the advertised cap governs (equal to the wire cap included) the
+        \* decoder is never allowed a byte more than what was advertised
+        /\ ReqCapGoverns(cfg) => (dcap.cap > 0 /\ dcap.cap <= cfg.maxReq)
 
 View == <<phase, cfg, req, lim, dcap, dce>>
 =============================================================================
